@@ -24,9 +24,9 @@ for pid in ALL:
 man = dict(
     version=1,
     setup_cmd='cd /verif && ./check setup',
-    hooks=dict(guard='verif', enable='go build -tags verif (harness only; /repo has no guarded code so far)',
+    hooks=dict(guard='verif', enable='go build -tags verif -o nah ./cmd/nah in /verif/harness (replace => /repo/go): compiles go/pkg/cisco/verif_hooks.go (//go:build verif), which only exports dumps of parsed configurations, command descriptions, name tables and dstOfRoute',
                baseline_off_cmd='python3 /verif/tools/baseline.py',
-               source_commits=[], add_only=True),
+               source_commits=['d143c60'], add_only=True),
     engines=[dict(name='coq-proof+correspondence', path='/verif/check',
                   serves_properties=sorted(CLAIMS),
                   kind_free_text='Coq 8.16.1 theorems over hand-written Gallina models (coq/theories), tied to /repo on every run '
